@@ -23,6 +23,7 @@ import (
 	storetypes "cosmossdk.io/store/types"
 
 	sdk "github.com/cosmos/cosmos-sdk/types"
+	govv1 "github.com/cosmos/cosmos-sdk/x/gov/types/v1"
 	stakingtypes "github.com/cosmos/cosmos-sdk/x/staking/types"
 
 	feedstypes "github.com/bandprotocol/chain/v3/x/feeds/types"
@@ -44,6 +45,8 @@ import (
 //	pow  : voter power + D                                               (wrap target only)
 //	all  : current holding (delegation to that validator / stake of that denom) + D
 //	edge : (voter power - locked power) + D        -> D=+1 would leave the voter 1 below the lock
+//	lck  : (voter's locked power - powers already listed in this vote) + D   (vote signals only; meaningful when
+//	       a governance change of the restake AllowedDenoms has pushed the voter's power below its lock)
 //	p62  : 2^62 + D ; p63 : 2^63 + D
 type c07Num struct {
 	K string `json:"k"`
@@ -57,7 +60,7 @@ type c07Sig struct {
 }
 
 type c07Op struct {
-	Kind  string   `json:"k"` // vote | delegate | undelegate | stake | unstake | end
+	Kind  string   `json:"k"` // vote | delegate | undelegate | stake | unstake | denoms | end
 	Voter int      `json:"voter,omitempty"`
 	Sigs  []c07Sig `json:"sigs,omitempty"`
 	Wrap  int      `json:"wrap,omitempty"`  // 0 plain; 3: {2^63-1, 2^63-1, 2+t}; 4: {2^62, 2^62, 2^62, 2^62+t}  (int64 sum == t)
@@ -72,8 +75,9 @@ type c07Op struct {
 	Val     int     `json:"val,omitempty"`
 	Denom   int     `json:"denom,omitempty"` // 0 uband, 1 ualt
 	Amt     *c07Num `json:"amt,omitempty"`
-	N       int     `json:"n,omitempty"`  // end: number of blocks
-	Dt      int     `json:"dt,omitempty"` // end: seconds per block
+	Set     int     `json:"set,omitempty"` // denoms: index into c07DenomSets (new x/restake AllowedDenoms, through governance)
+	N       int     `json:"n,omitempty"`   // end: number of blocks
+	Dt      int     `json:"dt,omitempty"`  // end: seconds per block
 }
 
 type c07Case struct {
@@ -95,6 +99,9 @@ type c07Case struct {
 var c07IDs = []string{"A", "B", "AA", "C", "AB", "b", "BTC", "ZZZZ"}
 
 var c07Denoms = []string{"uband", "ualt"}
+
+// values of x/restake Params.AllowedDenoms the "denoms" op can install through a governance proposal
+var c07DenomSets = [][]string{{"uband"}, {"uband", "ualt"}, {"ualt"}, {}}
 
 func c07NoWrapMode() bool {
 	return os.Getenv("VERIF_C07_NOWRAP") == "1" || pbt.IsExcluded("C07", "C07/vote-sum-wrap")
@@ -139,9 +146,9 @@ func genC07(rt *rapid.T) c07Case {
 		}
 	}
 	genPower := func(last bool) c07Num {
-		w := []int{25, 25, 22, 10, 8, 2}
+		w := []int{25, 25, 22, 10, 8, 2, 4}
 		if c.Rich {
-			w = []int{10, 15, 22, 15, 36, 2}
+			w = []int{10, 15, 22, 15, 36, 2, 4}
 		}
 		k := gen.Pick(rt, "pk", w...)
 		if last && gen.Chance(rt, "lastrem", 1, 3) {
@@ -158,6 +165,8 @@ func genC07(rt *rapid.T) c07Case {
 			return c07Num{K: "frac", V: int64(gen.Range(rt, "fr", 1, 3))}
 		case 4:
 			return c07Num{K: "abs", V: gen.OneOf[int64](rt, "huge", 1<<62, 1<<62, 1<<62-1, 1<<62+1, 1<<61, 1<<63-1)}
+		case 6:
+			return c07Num{K: "lck", D: gen.OneOf[int64](rt, "lckd", -1, 0, 0, 1)}
 		default:
 			return c07Num{K: "abs", V: gen.OneOf[int64](rt, "nonpos", 0, -1)}
 		}
@@ -225,7 +234,113 @@ func genC07(rt *rapid.T) c07Case {
 	// constructed scenario (ordinary ops, so it shrinks like the rest): give a voter a delegation and a stake, vote
 	// with sum == power (or a fraction), re-vote the same total redistributed / identically, then withdraw so that
 	// power would end exactly 1 below the lock or far below it, then end the block.
+	// the generator's idea of the allowed denoms (exact as long as every proposal passes; only used to aim ops)
+	bandNow, altNow := true, c.AltAllowed
+	denomsOp := func(set int) {
+		c.Ops = append(c.Ops, c07Op{Kind: "denoms", Set: set})
+		bandNow, altNow = set == 0 || set == 1, set == 1 || set == 2
+	}
+	genDenoms := func() {
+		switch gen.Pick(rt, "dset", 7, 2, 1) {
+		case 0: // toggle ualt, uband stays (becomes) allowed
+			if altNow && bandNow {
+				denomsOp(0)
+			} else {
+				denomsOp(1)
+			}
+		case 1:
+			if altNow && !bandNow {
+				denomsOp(1)
+			} else {
+				denomsOp(2)
+			}
+		default:
+			if !altNow && !bandNow {
+				denomsOp(1)
+			} else {
+				denomsOp(3)
+			}
+		}
+	}
+
+	// constructed scenario 2: power falls below the lock through a path the restake hooks do not guard. Stake ualt
+	// while it is allowed, vote with sum == power, governance removes ualt from AllowedDenoms (power drops, the lock
+	// stays), then re-vote with the same total (identical / redistributed) or with a total in (power, lock]: the
+	// re-vote exceeds the voter's current power.
+	genScenarioDenoms := func() {
+		voter := gen.Uniform(rt, "sdvoter", c.NVoters)
+		end := func(p int) {
+			if gen.Chance(rt, "sdend", p, 10) {
+				c.Ops = append(c.Ops, c07Op{Kind: "end", N: 1, Dt: 1})
+			}
+		}
+		if !altNow {
+			denomsOp(1)
+		}
+		if gen.Chance(rt, "sddel", 1, 2) {
+			c.Ops = append(c.Ops, c07Op{Kind: "delegate", Voter: voter, Val: gen.Uniform(rt, "sdval", c.NVals), Amt: smallAmt()})
+		}
+		amt := smallAmt()
+		if c.Rich && gen.Chance(rt, "sdbig", 1, 2) {
+			amt = bigAmt()
+		}
+		c.Ops = append(c.Ops, c07Op{Kind: "stake", Voter: voter, Denom: 1, Amt: amt})
+		end(8)
+		first := c07Op{Kind: "vote", Voter: voter}
+		n := 1 + gen.Uniform(rt, "sdn", c.MaxFeeds)
+		start := gen.Uniform(rt, "sdstart", c.K)
+		for i := 0; i < n; i++ {
+			p := c07Num{K: "abs", V: int64(gen.Range(rt, "sdp", 1, 3))}
+			if i == n-1 {
+				p = gen.OneOf(rt, "sdlast", c07Num{K: "rem"}, c07Num{K: "rem"}, c07Num{K: "rem"}, c07Num{K: "rem", D: -1}, c07Num{K: "frac", V: 3})
+			}
+			first.Sigs = append(first.Sigs, c07Sig{ID: (start + i) % c.K, P: p})
+		}
+		c.Ops = append(c.Ops, first)
+		end(8)
+		if bandNow && gen.Chance(rt, "sdnone", 1, 5) {
+			denomsOp(3)
+		} else {
+			denomsOp(0)
+		}
+		re := c07Op{Kind: "vote", Voter: voter}
+		if gen.Chance(rt, "sdsame", 3, 4) {
+			re.Same = gen.OneOf(rt, "sdsamek", 1, 2, 3, 3)
+			re.Parts = 1 + gen.Uniform(rt, "sdparts", c.MaxFeeds)
+			re.Base = gen.Uniform(rt, "sdbase", c.K)
+			re.Sigs = first.Sigs
+			for i := 0; i < c.MaxFeeds; i++ {
+				re.Weights = append(re.Weights, gen.Range(rt, "sdwgt", 0, 4))
+			}
+		} else {
+			// total == lock + D on fresh ids
+			base := gen.Uniform(rt, "sdlbase", c.K)
+			if c.MaxFeeds >= 2 && gen.Chance(rt, "sdtwo", 1, 2) {
+				re.Sigs = append(re.Sigs, c07Sig{ID: base, P: c07Num{K: "abs", V: int64(gen.Range(rt, "sdlp", 1, 3))}})
+			}
+			re.Sigs = append(re.Sigs, c07Sig{ID: (base + 1) % c.K, P: c07Num{K: "lck", D: gen.OneOf[int64](rt, "sdld", -1, -1, 0, -2)}})
+		}
+		c.Ops = append(c.Ops, re)
+		c.Ops = append(c.Ops, c07Op{Kind: "end", N: 1, Dt: 1})
+		switch gen.Pick(rt, "sdtail", 3, 2, 2, 2) {
+		case 1: // a withdrawal while the power is below the lock
+			c.Ops = append(c.Ops, c07Op{Kind: "unstake", Voter: voter, Denom: gen.Pick(rt, "sdud", 1, 2), Amt: gen.OneOf(rt, "sdua", &c07Num{K: "all"}, &c07Num{K: "abs", V: 1})})
+			c.Ops = append(c.Ops, c07Op{Kind: "end", N: 1, Dt: 1})
+		case 2: // the denom comes back: power is restored, the identical re-vote is affordable again
+			denomsOp(1)
+			c.Ops = append(c.Ops, c07Op{Kind: "vote", Voter: voter, Same: 1, Sigs: first.Sigs})
+			c.Ops = append(c.Ops, c07Op{Kind: "end", N: 1, Dt: 1})
+		case 3: // a second re-vote, now within the reduced power
+			c.Ops = append(c.Ops, c07Op{Kind: "vote", Voter: voter, Sigs: []c07Sig{{ID: start, P: c07Num{K: "rem", D: gen.OneOf[int64](rt, "sdrd", 0, 0, 1, -1)}}}})
+			c.Ops = append(c.Ops, c07Op{Kind: "end", N: 1, Dt: 1})
+		}
+	}
+
 	genScenario := func() {
+		if gen.Chance(rt, "scdenoms", 2, 5) {
+			genScenarioDenoms()
+			return
+		}
 		voter := gen.Uniform(rt, "scvoter", c.NVoters)
 		val := gen.Uniform(rt, "scval", c.NVals)
 		end := func(p int) {
@@ -328,6 +443,9 @@ func genC07(rt *rapid.T) c07Case {
 				}
 			}
 			c.Ops = append(c.Ops, o)
+		case w < 89:
+			isTx = false
+			genDenoms()
 		default:
 			isTx = false
 			c.Ops = append(c.Ops, c07Op{Kind: "end", N: gen.Range(rt, "nblk", 1, c.UpdateInterval+1), Dt: gen.OneOf(rt, "dt", 1, 1, 3, 40)})
@@ -552,7 +670,15 @@ func runC07(c c07Case) *pbt.Verdict {
 		updateWithFeeds, feedsCut, tieCut, thrEq, intervalMin, intervalStep, inapplicable   int
 		multiVoterSignal                                                                    bool
 		revoteSame, withdrawAfterSame                                                       int
+		// region "power below the lock" (reachable only through a change of the restake AllowedDenoms)
+		denomsChanged, denomsReallowed, powerBelowLockObs, revoteSameBelow, revoteNotGrowingBelow int
+		revoteWithinPowerBelow, voteAcceptedBelow, voteRejectedBelow, withdrawWhileBelow          int
+		withdrawRejWhileBelow, delegateRejBelow, delegateOKBelow, stakeOKBelow, govNotPassed      int
 	)
+	// excused[v]: the voter's power fell below its lock when governance removed a denom from AllowedDenoms; stays
+	// set until the power covers the lock again (only then may the standing vote exceed the power on committed state)
+	excused := make([]bool, c.NVoters)
+	var afterBlock func()               // runs once after the txs of the next block were judged, before the state check
 	lastSame := make([]bool, c.NVoters) // the voter\'s latest accepted vote was a re-vote with an unchanged total (> 0)
 
 	resolve := func(n c07Num, voter int, used *big.Int, holding *big.Int) *big.Int {
@@ -572,6 +698,8 @@ func runC07(c c07Case) *pbt.Verdict {
 			return add(holding, bi(n.D))
 		case "edge":
 			return add(sub(pw, m.lock(voter)), bi(n.D))
+		case "lck":
+			return add(sub(m.lock(voter), used), bi(n.D))
 		case "p62":
 			return add(c07P62, bi(n.D))
 		case "p63":
@@ -790,6 +918,21 @@ func runC07(c c07Case) *pbt.Verdict {
 			}
 		}
 
+		func() {
+			var want []string
+			for j, dn := range c07Denoms {
+				if m.allowed[j] {
+					want = append(want, dn)
+				}
+			}
+			got := append([]string(nil), rk.GetParams(ctx).AllowedDenoms...)
+			sort.Strings(got)
+			sort.Strings(want)
+			if strings.Join(got, ",") != strings.Join(want, ",") {
+				v.Failf("C07/harness-power-model", "height %d: restake AllowedDenoms %v on chain, model %v", height, got, want)
+			}
+		}()
+
 		// (b1) Vote store == model standing vote ; Lock[voter,"feeds"] == sum of the standing vote
 		voteTotals := map[string]*big.Int{}
 		for i := 0; i < c.NVoters; i++ {
@@ -817,8 +960,16 @@ func runC07(c c07Case) *pbt.Verdict {
 				v.Failf("C07/lock-mismatch", "height %d: voter %d feeds lock %s, sum of standing vote %s", height, i, lk.Power, want)
 			}
 			// the statement's bound itself, on the committed state: locked power never above total power
+			// (the power can fall below an existing lock only when governance removes a staked denom from the restake
+			// AllowedDenoms - "when the vote is cast" in the statement; such voters are excused until they recover)
 			if pw := m.power(i); want.Cmp(pw) > 0 {
-				v.Failf("C07/standing-exceeds-power", "height %d: voter %d standing vote sum %s exceeds power %s", height, i, want, pw)
+				if i < len(excused) && excused[i] {
+					powerBelowLockObs++
+				} else {
+					v.Failf("C07/standing-exceeds-power", "height %d: voter %d standing vote sum %s exceeds power %s", height, i, want, pw)
+				}
+			} else if i < len(excused) {
+				excused[i] = false
 			}
 		}
 		// votes of anybody else must not exist (nobody else votes)
@@ -1044,18 +1195,18 @@ func runC07(c c07Case) *pbt.Verdict {
 		}
 	}
 
-	flush := func(dt int) bool {
+	flushRes := func(dt int) (*sim.BlockResult, bool) {
 		if dt < 1 {
 			dt = 1
 		}
 		res, err := ch.Block(pendTxs, time.Duration(dt)*time.Second)
 		if err != nil {
 			v.Failf("C07/finalize", "block %d failed: %v", ch.Height+1, err)
-			return false
+			return nil, false
 		}
 		if len(res.Resp.TxResults) != len(pend) {
 			v.Failf("C07/harness", "block %d: %d tx results for %d txs", res.Height, len(res.Resp.TxResults), len(pend))
-			return false
+			return nil, false
 		}
 		for i, t := range pend {
 			tr := res.Resp.TxResults[i]
@@ -1105,6 +1256,22 @@ func runC07(c c07Case) *pbt.Verdict {
 				if len(t.sigs) > c.MaxFeeds {
 					tooMany++
 				}
+				// region statistics: the voter's power is below its lock (after a denom was disallowed)
+				if isBelow := pw.Cmp(lock) < 0; isBelow {
+					switch {
+					case len(m.standing[t.voter]) > 0 && sum.Cmp(lock) == 0:
+						revoteSameBelow++
+					case sum.Cmp(pw) > 0 && sum.Cmp(lock) < 0:
+						revoteNotGrowingBelow++
+					case sum.Cmp(pw) <= 0 && ok:
+						revoteWithinPowerBelow++
+					}
+					if ok {
+						voteAcceptedBelow++
+					} else {
+						voteRejectedBelow++
+					}
+				}
 				if ok {
 					accepted++
 					// (a) a vote may be accepted only if the mathematical sum of its powers is within the voter's power
@@ -1113,10 +1280,10 @@ func runC07(c c07Case) *pbt.Verdict {
 						if wraps {
 							v.Failf("C07/vote-sum-wrap", "height %d: vote of voter %d (power %s) accepted with signals %v: true sum %s exceeds the voter's power (int64 sum wraps to %s)",
 								res.Height, t.voter, pw, t.sigs, sum, new(big.Int).Mod(sum, c07P64))
-							return false
+							return nil, false
 						}
-						v.Failf("C07/vote-exceeds-power", "height %d: vote of voter %d accepted with sum %s above power %s: %v", res.Height, t.voter, sum, pw, t.sigs)
-						return false
+						v.Failf("C07/vote-exceeds-power", "height %d: vote of voter %d accepted with sum %s above power %s (locked by the standing vote: %s): %v", res.Height, t.voter, sum, pw, lock, t.sigs)
+						return nil, false
 					}
 					// re-vote changing >= 2 signals?
 					if m.voted[t.voter] {
@@ -1173,15 +1340,31 @@ func runC07(c c07Case) *pbt.Verdict {
 						v.Count("converse_mismatch", 1)
 					}
 				}
+			case "gov":
+				if !ok {
+					v.Failf("C07/harness", "height %d: governance tx failed: %s", res.Height, tr.Log)
+					return nil, false
+				}
 			case "delegate":
+				// (while the power is below the lock the staking hook may refuse a delegation that does not reach the
+				// lock; the statement says nothing about it: the model follows the outcome, nothing is asserted)
 				if ok {
 					m.deleg[t.voter][t.val].Add(m.deleg[t.voter][t.val], t.amt)
+					if pw.Cmp(lock) < 0 {
+						delegateOKBelow++
+					}
 				} else {
 					inapplicable++
+					if pw.Cmp(lock) < 0 {
+						delegateRejBelow++
+					}
 				}
 			case "stake":
 				if ok {
 					m.stake[t.voter][t.denom].Add(m.stake[t.voter][t.denom], t.amt)
+					if pw.Cmp(lock) < 0 {
+						stakeOKBelow++
+					}
 				} else {
 					inapplicable++
 				}
@@ -1200,17 +1383,25 @@ func runC07(c c07Case) *pbt.Verdict {
 				if below && t.amt.Cmp(hold) <= 0 && lastSame[t.voter] {
 					withdrawAfterSame++
 				}
+				if pw.Cmp(lock) < 0 && t.amt.Cmp(hold) <= 0 {
+					// already below the lock: whatever is withdrawn (even coins of a denom that does not count) leaves
+					// the total power below the lock, so by the statement it must not succeed
+					withdrawWhileBelow++
+					if !ok {
+						withdrawRejWhileBelow++
+					}
+				}
 				if ok {
 					// (d) a withdrawal that takes total power below the locked power must be rejected
 					if below {
 						v.Failf("C07/withdraw-below-lock", "height %d: %s of %s by voter %d accepted: power %s -> %s but %s is locked by the standing vote",
 							res.Height, t.op.Kind, t.amt, t.voter, pw, after, lock)
-						return false
+						return nil, false
 					}
 					hold.Sub(hold, t.amt)
 					if hold.Sign() < 0 {
 						v.Failf("C07/harness-power-model", "height %d: %s of %s accepted above the holding", res.Height, t.op.Kind, t.amt)
-						return false
+						return nil, false
 					}
 				} else if below && t.amt.Cmp(hold) <= 0 {
 					withdrawRej++
@@ -1222,8 +1413,93 @@ func runC07(c c07Case) *pbt.Verdict {
 			}
 		}
 		pend, pendTxs = nil, nil
+		if afterBlock != nil {
+			f := afterBlock
+			afterBlock = nil
+			f()
+		}
 		checkState(res.Height, res.Time)
-		return v.Violation == ""
+		return res, v.Violation == ""
+	}
+	flush := func(dt int) bool {
+		_, ok := flushRes(dt)
+		return ok
+	}
+
+	// runDenoms installs new restake AllowedDenoms through a real governance proposal (the same three steps as
+	// sim.GovExec: submit, all validators vote yes, voting period ends and the gov end blocker executes the message),
+	// every block going through the ordinary per-block judgement and state check.
+	runDenoms := func(set int) bool {
+		if set < 0 {
+			set = -set
+		}
+		names := c07DenomSets[set%len(c07DenomSets)]
+		if len(pend) > 0 && !flush(1) {
+			return false
+		}
+		msg := restaketypes.NewMsgUpdateParams(sim.GovAuthority(), restaketypes.NewParams(append([]string{}, names...)))
+		prop, err := govv1.NewMsgSubmitProposal([]sdk.Msg{msg}, sdk.NewCoins(sdk.NewInt64Coin("uband", 10)), ch.Vals[0].Addr.String(), "", "t", "s", false)
+		if err != nil {
+			v.Failf("C07/harness", "NewMsgSubmitProposal: %v", err)
+			return false
+		}
+		pend = append(pend, c07Tx{op: c07Op{Kind: "gov"}})
+		pendTxs = append(pendTxs, ch.SignTx(ch.Vals[0], prop))
+		r1, ok := flushRes(1)
+		if !ok {
+			return false
+		}
+		var pid uint64
+		for _, ev := range sim.Events(r1.Resp, "submit_proposal") {
+			if a := sim.Attr(ev, "proposal_id"); a != "" {
+				fmt.Sscan(a, &pid)
+			}
+		}
+		if pid == 0 {
+			v.Failf("C07/harness", "height %d: no proposal id in the events of the submit-proposal tx", r1.Height)
+			return false
+		}
+		for _, va := range ch.Vals {
+			pend = append(pend, c07Tx{op: c07Op{Kind: "gov"}})
+			pendTxs = append(pendTxs, ch.SignTx(va, govv1.NewMsgVote(va.Addr, pid, govv1.OptionYes, "")))
+		}
+		if !flush(1) {
+			return false
+		}
+		afterBlock = func() {
+			p, err := ch.App.GovKeeper.Proposals.Get(ch.Ctx(), pid)
+			if err != nil || p.Status != govv1.StatusPassed {
+				govNotPassed++
+				return
+			}
+			was := append([]bool(nil), m.allowed...)
+			for j, dn := range c07Denoms {
+				m.allowed[j] = false
+				for _, x := range names {
+					if x == dn {
+						m.allowed[j] = true
+					}
+				}
+			}
+			changed := false
+			for j := range was {
+				if was[j] != m.allowed[j] {
+					changed = true
+					if m.allowed[j] {
+						denomsReallowed++
+					}
+				}
+			}
+			if changed {
+				denomsChanged++
+			}
+			for i := 0; i < c.NVoters; i++ {
+				if m.lock(i).Cmp(m.power(i)) > 0 {
+					excused[i] = true
+				}
+			}
+		}
+		return flush(int(ch.Cfg.GovVoting/time.Second) + 1)
 	}
 
 	for _, o := range c.Ops {
@@ -1239,6 +1515,12 @@ func runC07(c c07Case) *pbt.Verdict {
 				if !flush(o.Dt) {
 					return v
 				}
+			}
+			continue
+		}
+		if o.Kind == "denoms" {
+			if !runDenoms(o.Set) {
+				return v
 			}
 			continue
 		}
@@ -1282,6 +1564,14 @@ func runC07(c c07Case) *pbt.Verdict {
 	cls(withdrawRej, "withdraw-below-lock-rejected")
 	cls(revoteSame, "revote-same-total")
 	cls(withdrawAfterSame, "withdraw-after-same-total-revote")
+	cls(denomsChanged, "denoms-changed")
+	cls(denomsReallowed, "denom-reallowed")
+	cls(powerBelowLockObs, "power-below-lock")
+	cls(revoteSameBelow, "revote-same-total-while-power-below-lock")
+	cls(revoteNotGrowingBelow, "revote-lower-total-above-power-while-below-lock")
+	cls(revoteWithinPowerBelow, "revote-within-power-while-below-lock")
+	cls(withdrawWhileBelow, "withdraw-while-power-below-lock")
+	cls(delegateRejBelow, "delegate-rejected-while-power-below-lock")
 	cls(updateWithFeeds, "update-with-feeds")
 	cls(feedsCut, "more-eligible-than-max")
 	cls(tieCut, "tie-at-cut")
@@ -1304,6 +1594,19 @@ func runC07(c c07Case) *pbt.Verdict {
 	v.Count("withdraw_below_lock_rejected", int64(withdrawRej))
 	v.Count("revote_same_total", int64(revoteSame))
 	v.Count("withdraw_after_same_total_revote", int64(withdrawAfterSame))
+	v.Count("denoms_changed", int64(denomsChanged))
+	v.Count("power_below_lock_voter_blocks", int64(powerBelowLockObs))
+	v.Count("revote_same_total_while_below_lock", int64(revoteSameBelow))
+	v.Count("revote_lower_total_above_power_while_below_lock", int64(revoteNotGrowingBelow))
+	v.Count("revote_within_power_while_below_lock", int64(revoteWithinPowerBelow))
+	v.Count("votes_accepted_while_below_lock", int64(voteAcceptedBelow))
+	v.Count("votes_rejected_while_below_lock", int64(voteRejectedBelow))
+	v.Count("withdraw_while_below_lock", int64(withdrawWhileBelow))
+	v.Count("withdraw_rejected_while_below_lock", int64(withdrawRejWhileBelow))
+	v.Count("delegate_rejected_while_below_lock", int64(delegateRejBelow))
+	v.Count("delegate_ok_while_below_lock", int64(delegateOKBelow))
+	v.Count("stake_ok_while_below_lock", int64(stakeOKBelow))
+	v.Count("gov_proposal_not_passed", int64(govNotPassed))
 	v.Count("inapplicable_ops", int64(inapplicable))
 	v.Count("blocks", ch.Height)
 	// DESIGN NT: >=1 re-vote changing >=2 signals and >=1 vote at a power boundary or with a wrapping sum
